@@ -154,6 +154,27 @@ Section C12.
     = map (fun kv => (fst kv, (s_dtype (snd kv), s_data (snd kv)))) (c_vars st).
   Proof. exact (reindex_same_labels_identity pd_get_loc pd_contains cast st st' new_span new_id fv strict fills fresh). Qed.
 
+  (* the result is well formed again, so reindex calls can be chained; extend (or permute) and come back: if every period of
+     the duplicate-free original span occurs in the intermediate span, reindexing there and back restores every variable *)
+  Theorem C12_reindex_wf (st st' : cst) (new_span : span) (new_id : Z) (fv : pyval) (strict : option bool)
+          (fills : list (string * pyval)) (fresh : Z) :
+    wf st -> old_span_ok pd_get_loc pd_contains (c_span st) (span_labels new_span) ->
+    reindex_M pd_get_loc pd_contains cast st new_span new_id fv strict fills fresh = Ret st' -> wf st'.
+  Proof. exact (reindex_wf pd_get_loc pd_contains cast st st' new_span new_id fv strict fills fresh). Qed.
+
+  Theorem C12_reindex_roundtrip (st st1 st2 : cst) (mid back : span) id1 id2 fv1 fv2 strict1 strict2 fills1 fills2 fresh1 fresh2 :
+    wf st ->
+    NoDup (span_labels (c_span st)) ->
+    (forall p, In p (span_labels (c_span st)) -> In p (span_labels mid)) ->
+    span_labels back = span_labels (c_span st) ->
+    old_span_ok pd_get_loc pd_contains (c_span st) (span_labels mid) ->
+    old_span_ok pd_get_loc pd_contains mid (span_labels back) ->
+    reindex_M pd_get_loc pd_contains cast st mid id1 fv1 strict1 fills1 fresh1 = Ret st1 ->
+    reindex_M pd_get_loc pd_contains cast st1 back id2 fv2 strict2 fills2 fresh2 = Ret st2 ->
+    map (fun kv => (fst kv, (s_dtype (snd kv), s_data (snd kv)))) (c_vars st2)
+    = map (fun kv => (fst kv, (s_dtype (snd kv), s_data (snd kv)))) (c_vars st).
+  Proof. exact (reindex_roundtrip pd_get_loc pd_contains cast st st1 st2 mid back id1 id2 fv1 fv2 strict1 strict2 fills1 fills2 fresh1 fresh2). Qed.
+
   (* ---------- totality: on a well-formed object with an old span of the supported kinds, nothing but the strict test and
      the conversion of a fill value to its variable's dtype can make reindex fail ---------- *)
   Theorem C12_reindex_succeeds (st : cst) (new_span : span) (new_id : Z) (fv : pyval) (strict : option bool)
@@ -234,6 +255,8 @@ Print Assumptions C12_known_fills_strict_irrelevant.
 Print Assumptions C12_pandas_loop_frame.
 Print Assumptions C12_model_reindex_values.
 Print Assumptions C12_reindex_succeeds.
+Print Assumptions C12_reindex_wf.
+Print Assumptions C12_reindex_roundtrip.
 Print Assumptions C12_reindex_same_labels_identity.
 Print Assumptions C12_reindex_then_label_get.
 Print Assumptions C12_pandas_loop_var.
